@@ -250,13 +250,13 @@ Definition g_no_plain_in_spread_group (c : gcircuit) : bool :=
   forallb (fun e => match gd e with Some (_, None) => negb (group_spread c (gkey c (gsrc e))) | _ => true end) (gedges c).
 Definition g_plain_ge2 (c : gcircuit) : bool :=
   Nat.ltb 0 (gdde c) || forallb (fun e => match gd e with Some (_, None) => Nat.leb 2 (plain_steps c e) | _ => true end) (gedges c).
-(* D115 (open; adaptive step sizes only, where a plain delay is a past() term: the DDE branch of _add_edge_buffer).  vectorize=True: the
+(* D115 (repaired in /repo, switch on; adaptive step sizes only, where a plain delay is a past() term: the DDE branch of _add_edge_buffer).  vectorize=True: the
    branch writes `index(buffered, sidx) = index(past(var, d), sidx)` — slot number = SOURCE UNIT instead of the slot's own position — and
    declares `buffered` with one entry per slot.  It is right only when the spread-less slots of a merged source variable are exactly its
    units 0..U-1 in this order; otherwise: a (1,) array where the edge equation expects a scalar (ValueError at the first call), an index out
    of range, or slots that are never written.  Not modelled (the adaptive solvers are outside this model); the guard delimits the class for
-   the adaptive correspondence stream.  fixed_dde_slots: false = the code as it is (fixes/proposed_fix_C11_mixed_adaptive.diff). *)
-Definition fixed_dde_slots : bool := false.
+   the adaptive correspondence stream.  fixed_dde_slots: false = the code as it is (repaired by fix D115, fixes/round9/01_D115.diff). *)
+Definition fixed_dde_slots : bool := true.
 Definition same_class (a b : node) : bool := Bool.eqb (nsrc a) (nsrc b) && Nat.eqb (ncls a) (ncls b).
 Definition unit_of (c : gcircuit) (i : nat) : nat := length (filter (same_class (gnode c i)) (firstn i (gnodes c))).
 Fixpoint list_nat_eqb (a b : list nat) : bool :=
